@@ -1,9 +1,281 @@
 package props
 
-import "verif/internal/core"
+import (
+	"bufio"
+	"bytes"
+	"encoding/json"
+	"fmt"
+	"path/filepath"
+	"strings"
+	"sync"
+	"time"
 
-// C06 — stub, replaced by the real check.
+	"verif/internal/core"
+)
+
+type c06Fault struct {
+	Kind     string `json:"kind"`
+	At       int    `json:"at"`
+	KeepOpen bool   `json:"keep_open"`
+}
+
+type c06Case struct {
+	ID       string     `json:"id"`
+	BodyLen  int        `json:"body_len"`
+	Chunks   int        `json:"chunks"`
+	DelayMs  int        `json:"delay_ms"`
+	Attempts []c06Fault `json:"attempts"`
+	HoldMs   int        `json:"hold_ms"`
+}
+
+type c06Result struct {
+	ID       string `json:"id"`
+	Attempts []struct {
+		N        int    `json:"n"`
+		Kind     string `json:"kind"`
+		Received int    `json:"received"`
+		Acked    bool   `json:"acked"`
+		Problem  string `json:"problem"`
+	} `json:"attempts"`
+	WriteErr   string   `json:"write_err"`
+	CloseErr   string   `json:"close_err"`
+	Hang       bool     `json:"hang"`
+	Panic      string   `json:"panic"`
+	DurationMs int64    `json:"duration_ms"`
+	Violations []string `json:"violations"`
+	Serialised int      `json:"serialised_len"`
+}
+
+func c06Failing() []c06Fault {
+	var out []c06Fault
+	for _, at := range []int{-2, -3} {
+		out = append(out, c06Fault{Kind: "rst", At: at}, c06Fault{Kind: "fin", At: at})
+	}
+	for _, at := range []int{0, 1, 100, 4095, 4096, 4097, 8192, -1} {
+		out = append(out, c06Fault{Kind: "e5xx", At: at}, c06Fault{Kind: "e5xx", At: at, KeepOpen: true},
+			c06Fault{Kind: "rst", At: at}, c06Fault{Kind: "fin", At: at})
+	}
+	out = append(out, c06Fault{Kind: "garbage", At: 0}, c06Fault{Kind: "garbage", At: 100}, c06Fault{Kind: "garbage", At: -1})
+	return out
+}
+
+func (f c06Fault) String() string {
+	s := fmt.Sprintf("%s@%d", f.Kind, f.At)
+	if f.KeepOpen {
+		s += "+open"
+	}
+	return s
+}
+
+func c06Pattern(fs []c06Fault) string {
+	var p []string
+	for _, f := range fs {
+		p = append(p, f.String())
+	}
+	return strings.Join(p, ",")
+}
+
+// C06 — retried uploads are never corrupted.
 func C06(r *core.Run) {
-	r.Broken("check not implemented yet")
-	r.Finish(1)
+	r.Level = "fault_enumeration"
+	r.SetRule("utils.NewResponseForwarder driven in-process (race-built worker) with a real http.Client against a byte-level TCP fault server; enumerated fault scripts: kind {5xx early / after k bytes / after the body, RST, FIN, garbage} x offset k {on accept, inside headers, 0, 1, 100, 4095, 4096, 4097, 8192, end} x attempt patterns of length <=3 x serialised size classes x producer timing (written at once | streamed in chunks with pauses so that the fault lands while the previous attempt's reader is parked); class = (attempt pattern, size class, timing)")
+	r.Assume("the fault server de-chunks the upload itself; an attempt counts as acknowledged only when the server replied 200 after reading the terminating chunk")
+	bin := r.MustBuild(r.BuildWorker())
+	fails := c06Failing()
+	rng := r.Rand("c06")
+	sizes := []int{0, 10, 3700, 3850, 3900, 3950, 4000, 5000, 65536}
+	if !r.Quick() {
+		for b := 3600; b <= 4100; b += 8 {
+			sizes = append(sizes, b)
+		}
+		sizes = append(sizes, 1<<20)
+	}
+	type timing struct{ chunks, delay, hold int }
+	timings := []timing{{1, 0, 0}, {6, 2, 15}, {20, 1, 0}}
+	var cases []c06Case
+	add := func(at []c06Fault, size int, t timing) {
+		id := fmt.Sprintf("s%d-%d", r.Seed, len(cases))
+		cases = append(cases, c06Case{ID: id, BodyLen: size, Chunks: t.chunks, DelayMs: t.delay, HoldMs: t.hold, Attempts: at})
+	}
+	// all single-fault scripts [F, ok] x sizes x timings (quick: a seeded third of the product, every F and every size still covered)
+	for fi, f := range fails {
+		for si, size := range sizes {
+			for ti, t := range timings {
+				if r.Quick() && (fi+si+ti+int(r.Seed))%3 != 0 && !(f.Kind == "e5xx" && f.At == 0 && ti == 1) {
+					continue
+				}
+				add([]c06Fault{f, {Kind: "ok", At: -1}}, size, t)
+			}
+		}
+	}
+	// no-fault baseline
+	for _, size := range sizes {
+		add([]c06Fault{{Kind: "ok", At: -1}}, size, timings[rng.Intn(3)])
+	}
+	// two and three faults
+	n2 := r.Pick(60, 4000)
+	for i := 0; i < n2; i++ {
+		f1, f2 := fails[rng.Intn(len(fails))], fails[rng.Intn(len(fails))]
+		at := []c06Fault{f1, f2}
+		if rng.Intn(2) == 0 {
+			at = append(at, fails[rng.Intn(len(fails))])
+		} else {
+			at = append(at, c06Fault{Kind: "ok", At: -1})
+		}
+		add(at, sizes[rng.Intn(len(sizes))], timings[rng.Intn(3)])
+	}
+	if !r.Quick() {
+		// exhaustive pairs of early faults on the sizes around the replay limit
+		early := []c06Fault{}
+		for _, f := range fails {
+			if f.At <= 100 {
+				early = append(early, f)
+			}
+		}
+		for _, f1 := range early {
+			for _, f2 := range early {
+				add([]c06Fault{f1, f2, {Kind: "ok", At: -1}}, []int{10, 3900, 5000}[rng.Intn(3)], timings[1+rng.Intn(2)])
+			}
+		}
+	}
+	if r.OnlyCase >= 0 && r.OnlyCase < len(cases) {
+		cases = cases[r.OnlyCase : r.OnlyCase+1]
+	}
+
+	results := c06RunShards(r, bin, cases, 10000)
+	byID := map[string]c06Case{}
+	for _, c := range cases {
+		byID[c.ID] = c
+	}
+	// confirm hangs solo with a doubled bound
+	var hung []c06Case
+	for _, res := range results {
+		if res.Hang {
+			hung = append(hung, byID[res.ID])
+		}
+	}
+	confirmed := map[string]bool{}
+	for _, c := range hung {
+		rr := c06RunShards(r, bin, []c06Case{c}, 20000)
+		if len(rr) == 1 && rr[0].Hang {
+			confirmed[c.ID] = true
+		} else {
+			r.Inconclusive(fmt.Sprintf("case %s missed the 10s bound once but completed when re-run alone", c.ID))
+		}
+	}
+	acked, retried := 0, 0
+	maxDur := int64(0)
+	seenIDs := map[string]bool{}
+	for _, res := range results {
+		c := byID[res.ID]
+		seenIDs[res.ID] = true
+		t := "at-once"
+		if c.Chunks > 1 {
+			t = fmt.Sprintf("streamed%d", c.Chunks)
+		}
+		r.Case(fmt.Sprintf("%s|%s|%s", c06Pattern(c.Attempts), c06SizeClass(c.BodyLen), t))
+		if len(res.Attempts) > 1 {
+			retried++
+		}
+		for _, a := range res.Attempts {
+			if a.Acked {
+				acked++
+			}
+		}
+		if res.DurationMs > maxDur && !res.Hang {
+			maxDur = res.DurationMs
+		}
+		for _, v := range res.Violations {
+			parts := strings.SplitN(v, "|", 3)
+			sig := "C06:" + parts[0]
+			if len(parts) > 1 && parts[1] != "" {
+				sig += ":" + parts[1]
+			}
+			r.Violate(sig, fmt.Sprintf("script [%s] body=%d chunks=%d: %s", c06Pattern(c.Attempts), c.BodyLen, c.Chunks, parts[len(parts)-1]), c, res)
+		}
+		if res.Hang && confirmed[res.ID] {
+			first := "none"
+			if len(c.Attempts) > 0 {
+				first = c.Attempts[0].String()
+			}
+			r.Violate("C06:handler-blocked:first-fault="+first, fmt.Sprintf("script [%s] body=%d chunks=%d: handler Write/Close did not return within 10s (confirmed alone with 20s)", c06Pattern(c.Attempts), c.BodyLen, c.Chunks), c, res)
+		}
+		if len(res.Attempts) > 1 || len(c.Attempts) > 2 {
+			r.Sample(map[string]interface{}{"case": c, "observed_attempts": res.Attempts, "close_err": res.CloseErr, "ms": res.DurationMs})
+		}
+	}
+	for _, c := range cases {
+		if !seenIDs[c.ID] {
+			r.Inconclusive("no result for case " + c.ID + " (worker died?)")
+		}
+	}
+	r.Set("acknowledged_attempts_checked", acked)
+	r.Set("cases_with_retries", retried)
+	r.Set("max_case_duration_ms", maxDur)
+	r.Set("hangs_confirmed", len(confirmed))
+	r.JudgeRaces(core.ParseRaceLogs(filepath.Join(r.WorkDir, "race-")))
+	r.Finish(r.Pick(150, 3000))
+}
+
+func c06SizeClass(n int) string {
+	switch {
+	case n < 100:
+		return "tiny"
+	case n < 3800:
+		return "below-limit"
+	case n <= 4100:
+		return "at-limit"
+	case n <= 65536:
+		return "64k"
+	}
+	return "1M"
+}
+
+// c06RunShards runs the cases in parallel worker processes.
+func c06RunShards(r *core.Run, bin string, cases []c06Case, boundMs int) []c06Result {
+	shards := 8
+	if len(cases) < 16 {
+		shards = 1
+	}
+	var mu sync.Mutex
+	var out []c06Result
+	var wg sync.WaitGroup
+	for s := 0; s < shards; s++ {
+		var part []c06Case
+		for i := s; i < len(cases); i += shards {
+			part = append(part, cases[i])
+		}
+		if len(part) == 0 {
+			continue
+		}
+		wg.Add(1)
+		go func(part []c06Case) {
+			defer wg.Done()
+			spec, _ := json.Marshal(map[string]interface{}{"parallel": 6, "bound_ms": boundMs, "cases": part})
+			timeout := time.Duration(len(part)/6+1)*time.Duration(boundMs)*time.Millisecond/4 + 2*time.Minute
+			stdout, logPath, err := r.RunWorker(bin, "c06", spec, timeout)
+			sc := bufio.NewScanner(bytes.NewReader(stdout))
+			sc.Buffer(make([]byte, 1<<20), 1<<26)
+			var rs []c06Result
+			for sc.Scan() {
+				var res c06Result
+				if json.Unmarshal(sc.Bytes(), &res) == nil && res.ID != "" {
+					rs = append(rs, res)
+				}
+			}
+			mu.Lock()
+			out = append(out, rs...)
+			mu.Unlock()
+			if err != nil {
+				for _, ex := range core.CrashMarkers(logPath) {
+					r.Violate(core.CrashSignature(ex), "worker crashed while running cases "+fmt.Sprint(core.LastStarted(logPath, 8))+": "+ex, nil, nil)
+				}
+				if len(core.CrashMarkers(logPath)) == 0 {
+					r.Broken(fmt.Sprintf("c06 worker failed: %v", err))
+				}
+			}
+		}(part)
+	}
+	wg.Wait()
+	return out
 }
